@@ -24,13 +24,23 @@ def narrow_grid(rng):
     ops = ["add", "sub", "mul", "div", "rem"]
     vals = sorted({tmin(t), tmax(t), tmin(t) + 1, tmax(t) - 1, 0, 1, 2, 3, wrap(t, -1), wrap(t, -2), wrap(t, 100)})
     body = []
-    for _ in range(6):
-        op = rng.choice(ops)
-        a, b = rng.choice(vals), rng.choice(vals)
+    MIN, MAX = tmin(t), tmax(t)
+    if signed(t):
+        edge = [("add", MAX, 1), ("add", MAX, MAX), ("add", MIN, -1), ("sub", MIN, 1), ("sub", MAX, -1), ("sub", 0, MIN), ("mul", MAX, 2), ("mul", MIN, -1), ("mul", MIN, 2),
+                ("mul", MAX, MAX), ("div", MIN, -1), ("div", MAX, -1), ("div", MIN, 2), ("rem", MIN, -1), ("rem", MIN, 3), ("rem", MAX, -2)]
+    else:
+        edge = [("add", MAX, 1), ("add", MAX, MAX), ("sub", 0, 1), ("sub", 1, MAX), ("mul", MAX, 2), ("mul", MAX, MAX), ("div", MAX, 1), ("div", MAX, MAX), ("rem", MAX, 2)]
+    k0 = rng.below(len(edge))
+    for q in range(8):
+        if q < 5:
+            op, a, b = edge[(k0 + q * 3) % len(edge)]          # the operand pairs whose exact result leaves the type (all of them over a few programs)
+        else:
+            op = rng.choice(ops)
+            a, b = rng.choice(vals), rng.choice(vals)
         if op in ("div", "rem") and b == 0: b = wrap(t, -1) if signed(t) else 1
         e = Bin(op, t, Call("id_" + t, I(t, a)), Call("id_" + t, I(t, b)))
         w = rng.choice(["i32", "i64", "u32"])
-        r = rng.below(5)
+        r = (q + k0) % 5
         if r == 0: body.append(Print(Cast(t, w, e)))
         elif r == 1: body.append(If(Bin(rng.choice(["lt", "ge", "eq"]), t, e, Call("id_" + t, I(t, rng.choice(vals)))), [Print(I("i32", 1))], [Print(I("i32", 0))]))
         elif r == 2: body.append(Print(Call("wide", Cast(t, "i64", e))))
@@ -125,7 +135,7 @@ def main():
     for (kind, sx), m in zip(bases, bm):
         if "text" not in m or not (m["term"] == "exit" or m["term"].startswith("panic")): continue
         bi = len(progs); progs.append(sx); meta.append((kind, "base", bi))
-        for vk, vsx in variants(rng, sx, per_kind):
+        for vk, vsx in variants(rng, sx, per_kind if kind != "narrow" else 8):
             progs.append(vsx); meta.append((kind, vk, bi))
     ms = model_run(progs)
     st = {"bases": sum(1 for m in meta if m[1] == "base"), "variants": sum(1 for m in meta if m[1] != "base"), "by_rewrite": {}, "model_mismatch": 0, "exempt_const_index": 0,
@@ -143,12 +153,19 @@ def main():
                      (vk, kind, (m.get("lines") or [m.get("error")])[-3:], b["lines"][-3:]),
                      {"kind": "broken-obligation", "correspondence": "lib/rewrite.py vs Core/Eval (Props/C09 statements)", "base": ms[bi].get("text"), "variant": m.get("text", progs[i])}, no_input=True)
     # (b) the compiler
+    base_checked = {"native": set(), "wasm": set()}
     for target in ("native", "wasm"):
         res = run_many([{"files": {"main.fer": m.get("text", "")}, "mode": "run", "target": target, "timeout": 30} for m in ms])
         for i, ((kind, vk, bi), m, r) in enumerate(zip(meta, ms, res)):
             if vk == "base" or not usable[i]: continue
             b, rb = ms[bi], res[bi]
             if target == "wasm" and not rb.accepted: continue           # outside the common domain
+            if bi not in base_checked[target]:
+                base_checked[target].add(bi)
+                c0 = compare(b, rb, target)
+                if c0 and rb.accepted:
+                    rep.fail("base:%s:%s" % (target, hashlib.sha1(b["text"].encode()).hexdigest()[:12]), "a %s base program already differs from the reference semantics on %s (early evaluation suspected): %s" % (kind, target, c0[:200]),
+                             {"kind": "input", "target": target, "files": {"main.fer": b["text"]}, "expected": {"lines": b["lines"], "term": b["term"]}, "observed": rb.lines[:60], "cmd": "ferret -o out main.fer && ./out"})
             key = "%s:%s:%s" % (vk.split(":")[0], target, hashlib.sha1(m["text"].encode()).hexdigest()[:12])
             rp = {"kind": "input", "rewrite": vk, "target": target, "files": {"main.fer": m["text"]}, "base_files": {"main.fer": b["text"]},
                   "cmd": "ferret -o out main.fer && ./out   (for both programs)"}
